@@ -18,6 +18,8 @@ import (
 type c12Scenario struct {
 	name    string
 	failAt  map[int]int64 // client index -> server writes to it fail after this many response bytes
+	framing map[int]bool  // clients whose data legitimately depends on the interleaving (a file they read is rewritten by
+	// another client): only the framing of their stream is judged, not its content
 	clients [][]Req
 	allow   bool
 	reset   func()
@@ -108,7 +110,7 @@ func c12Exec(t *testing.T, root string, sc c12Scenario, only int, prefix []int) 
 func TestC12(t *testing.T) {
 	r := NewReporter(t)
 	defer r.Done()
-	r.Rule("7 scenarios of 2-3 connections whose requests collide (same plain file, same generated image across member boundaries, CD images of different sector size, two directory enumerations, uploads into sibling files, churn); scheduling points = every connection read/write/close, every accept and every leaf filesystem operation of the server goroutines; all interleavings with <= 2 (quick) / <= 3 (thorough) preemptions; oracle: each client's response stream equals the stream of its script run alone, connection closed, handle ledger empty, uploaded files exact; distinct by schedule (choice sequence)")
+	r.Rule("9 scenarios of 2-3 connections whose requests collide (same plain file, same generated image across member boundaries, CD images of different sector size, two directory enumerations, uploads into sibling files, churn); scheduling points = every connection read/write/close, every accept and every leaf filesystem operation of the server goroutines; all interleavings with <= 2 (quick) / <= 3 (thorough) preemptions; oracle: each client's response stream equals the stream of its script run alone, connection closed, handle ledger empty, uploaded files exact; distinct by schedule (choice sequence)")
 	w, _ := buildC02World(t, r)
 	defer w.Cleanup()
 	mkCDImage(w.Root, cdImg{name: "cd2336.bin", sector: 2336, sig: "psx", size: 0x200000}, 3)
@@ -141,6 +143,16 @@ func TestC12(t *testing.T) {
 			{mkReq(opOpenFile, "/plain/f131073.bin"), rdcReq(0, 131073)},
 			{mkReq(opOpenFile, "/plain/f65536.bin"), rdcReq(0, 65536), rdcReq(0, 65536)},
 			{mkReq(opOpenFile, "/plain/f65537.bin"), rdcReq(1, 65536), rdcReq(1, 65536)}}},
+		{name: "aborted-ordinary-read-then-two", failAt: map[int]int64{0: 30000}, clients: [][]Req{
+			{mkReq(opOpenFile, "/plain/f131073.bin"), rdReq(0, 131073)},
+			{mkReq(opOpenFile, "/plain/f65536.bin"), rdReq(0, 65536), rdReq(100, 1000)},
+			{mkReq(opOpenFile, "/plain/f65537.bin"), rdReq(1, 65536), rdReq(7, 900)}}},
+		{name: "reader-vs-rewriting-writer", allow: true, framing: map[int]bool{0: true}, reset: func() {
+			resetW()
+			w.File("w/shared.bin", 5000, 6)
+		}, clients: [][]Req{
+			{mkReq(opOpenFile, "/w/shared.bin"), rdReq(0, 4000), rdReq(3000, 4000), rdReq(100, 100), mkReq(opStatFile, "/plain")},
+			{mkReq(opCreateFile, "/w/shared.bin"), wrReq(patBytes(9, 0, 1500)), mkReq(opCreateFile, "/w")}}},
 		{name: "churn", clients: [][]Req{
 			{mkReq(opOpenFile, "/plain/f131073.bin"), rdcReq(0, 131073)},
 			{mkReq(opOpenFile, "/plain/f65536.bin"), rdcReq(0, 65536)},
@@ -215,6 +227,13 @@ func TestC12(t *testing.T) {
 				viol("livelock", "execution exceeded the horizon of scheduling points")
 			}
 			for i := range sc.clients {
+				if sc.framing[i] {
+					if why := c12Framing(sc.clients[i], o.streams[i]); why != "" {
+						viol(sprintf("framing-lost:client%d", i), sprintf("client %d (its file is rewritten by another client meanwhile): %s", i, why))
+						break
+					}
+					continue
+				}
 				if !bytes.Equal(o.streams[i], solo[i]) {
 					viol(sprintf("stream-differs-from-solo:client%d", i), sprintf("client %d received a different response stream than when run alone: %s", i, describeDiff(o.streams[i], solo[i])))
 					break
@@ -255,4 +274,49 @@ func compactChoices(points []schedPoint) []string {
 		}
 	}
 	return out
+}
+
+// c12Framing parses a response stream against its request script: every response must have the layout and the
+// self-announced length the protocol defines, and nothing may be left over. Content is not judged.
+func c12Framing(script []Req, stream []byte) string {
+	pos := 0
+	need := func(n int, what string) string {
+		if pos+n > len(stream) {
+			return sprintf("stream ends inside %s (have %d of %d bytes at offset %d)", what, len(stream)-pos, n, pos)
+		}
+		pos += n
+		return ""
+	}
+	for i, rq := range script {
+		switch rq.Op {
+		case opOpenFile:
+			if w := need(szOpenFile, sprintf("response %d (open-file)", i)); w != "" {
+				return w
+			}
+		case opStatFile:
+			if w := need(szStat, sprintf("response %d (stat)", i)); w != "" {
+				return w
+			}
+			if st := stream[pos-szStat : pos]; st[32] > 1 || int64(be64(st)) < -1 {
+				return sprintf("response %d is not a stat answer: %s (the stream is out of step)", i, hexHead(st))
+			}
+		case opReadFile:
+			if w := need(4, sprintf("response %d (read length)", i)); w != "" {
+				return w
+			}
+			n := int(int32(be32(stream[pos-4:])))
+			if n < 0 || n > int(rq.Limit) {
+				return sprintf("response %d announces %d bytes for a read of at most %d", i, n, rq.Limit)
+			}
+			if w := need(n, sprintf("response %d (read data, %d announced)", i, n)); w != "" {
+				return w
+			}
+		default:
+			return ""
+		}
+	}
+	if pos != len(stream) {
+		return sprintf("%d stray bytes after the last response", len(stream)-pos)
+	}
+	return ""
 }
